@@ -370,7 +370,15 @@ func (s *Store) CopyTo(dstFile StoreFile, flushEvery int) (res *Store, err error
 		numItems := 0
 		var errCopyItem error
 		err = srcColl.VisitItemsAscendEx(minItem.Key, true, func(i *Item, depth uint64) bool {
-			if errCopyItem = dstColl.SetItem(i); errCopyItem != nil {
+			// The destination gets its own copy of the item.  It has no
+			// callbacks, so it takes no reference on the source's item,
+			// which the source releases as the visit moves on (and an
+			// application that recycles released items then reuses).
+			c := &Item{Key: append([]byte(nil), i.Key...), Priority: i.Priority}
+			if i.Val != nil {
+				c.Val = append(make([]byte, 0, len(i.Val)), i.Val...)
+			}
+			if errCopyItem = dstColl.SetItem(c); errCopyItem != nil {
 				return false
 			}
 			numItems++
